@@ -517,7 +517,8 @@ def compare(model: dict, real: dict, U: int) -> list[str]:
 
 def params(cfg: dict, U: int) -> dict:
     return {"boundA": cfg["KCap"] * U, "boundB": cfg["ChunkMax"] * (1 + cfg["MaxBurst"]) * U,
-            "pausedA": 1 if cfg["PausedAtStart"] else 0, "pausedB": 1, "protoA": 1, "protoB": 1}
+            "pausedA": 1 if cfg["PausedAtStart"] else 0, "pausedB": 1, "protoA": 1, "protoB": 1,
+            "deferA": 0, "deferB": 0}
 
 
 def run_schedule(item: dict, cfg: dict | None = None, unit: int = 1) -> dict:
